@@ -232,6 +232,22 @@ impl Idl {
 
 /// the fixed C08 layout around a type T placed in all four positions
 pub fn runnable_idl(idx: usize, t: &Ty, fieldnames: (&str, &str, &str, &str)) -> Idl {
+    runnable_idl_named(idx, t, fieldnames, "Err")
+}
+
+pub fn snake(name: &str) -> String {
+    let mut s = String::new();
+    for (i, c) in name.chars().enumerate() {
+        if c.is_uppercase() && i > 0 {
+            s.push('_');
+        }
+        s.extend(c.to_lowercase());
+    }
+    s
+}
+
+/// same layout, with the declared error called `ename` (e.g. like one of the standard service errors)
+pub fn runnable_idl_named(idx: usize, t: &Ty, fieldnames: (&str, &str, &str, &str), ename: &str) -> Idl {
     let n = named();
     let terr = if t.has_anon() { Ty::Int } else { t.clone() };
     let (fa, fb, fc, fd) = fieldnames;
@@ -242,8 +258,10 @@ pub fn runnable_idl(idx: usize, t: &Ty, fieldnames: (&str, &str, &str, &str)) ->
             Method { name: "M".into(), input: vec![(fa.into(), t.clone()), ("k".into(), Ty::Int)], output: vec![(fb.into(), t.clone())] },
             Method { name: "N".into(), input: vec![("w".into(), Ty::Named("W".into()))], output: vec![("w".into(), Ty::Named("W".into()))] },
             Method { name: "P".into(), input: vec![], output: vec![] },
+            // every input optional: a call with all of them unset still has to reach the implementation
+            Method { name: "Q".into(), input: vec![("q".into(), Ty::Opt(Box::new(Ty::Int))), ("r".into(), Ty::Opt(Box::new(Ty::Str)))], output: vec![("q".into(), Ty::Opt(Box::new(Ty::Int)))] },
         ],
-        errors: vec![("Err".into(), vec![(fc.into(), terr)])],
+        errors: vec![(ename.into(), vec![(fc.into(), terr)])],
         runnable: true,
     }
 }
@@ -298,6 +316,8 @@ pub fn emit_glue(idx: usize, idl: &Idl, cases_json: &str) -> String {
     let (fa, ta) = (&m.input[0].0, &m.input[0].1);
     let fb = &m.output[0].0;
     let fc = &idl.errors[0].1[0].0;
+    let en = &idl.errors[0].0;
+    let reply_err = format!("reply_{}", snake(en));
     let rt_a = ta.rust(&format!("M_Args_{}", fa));
     let mut s = String::new();
     s += &format!("#[allow(non_camel_case_types, non_snake_case, dead_code, unused_imports, unused_variables, clippy::all)]\npub mod g{idx} {{\n", idx = idx);
@@ -308,8 +328,8 @@ pub fn emit_glue(idx: usize, idl: &Idl, cases_json: &str) -> String {
     s += &format!("            let got = serde_json::to_value(M_Args {{ {a}, r#k }}).unwrap();\n", a = ident(fa));
     s += "            let sc = rt::script(\"M\", got);\n";
     s += "            if sc.kind == \"error\" {\n";
-    s += "                let e: Err_Args = serde_json::from_value(sc.payload).unwrap();\n";
-    s += &format!("                return call.reply_err(e.{c});\n", c = ident(fc));
+    s += &format!("                let e: {en}_Args = serde_json::from_value(sc.payload).unwrap();\n", en = en);
+    s += &format!("                return call.{re}(e.{c});\n", re = reply_err, c = ident(fc));
     s += "            }\n";
     s += "            let r: M_Reply = serde_json::from_value(sc.payload).unwrap();\n";
     s += &format!("            if call.wants_more() {{ call.set_continues(true); call.reply(r.{b}.clone())?; call.reply(r.{b}.clone())?; call.set_continues(false); }}\n", b = ident(fb));
@@ -320,8 +340,11 @@ pub fn emit_glue(idx: usize, idl: &Idl, cases_json: &str) -> String {
     s += "            let r: N_Reply = serde_json::from_value(sc.payload).unwrap();\n";
     s += "            call.reply(r.r#w)\n        }\n";
     s += "        fn p(&self, call: &mut dyn Call_P) -> varlink::Result<()> {\n            let _ = rt::script(\"P\", json!({}));\n            call.reply()\n        }\n";
+    s += "        fn q(&self, call: &mut dyn Call_Q, r#q: Option<i64>, r#r: Option<String>) -> varlink::Result<()> {\n";
+    s += "            let got = serde_json::to_value(Q_Args { r#q, r#r }).unwrap();\n            let sc = rt::script(\"Q\", got);\n";
+    s += "            let r: Q_Reply = serde_json::from_value(sc.payload).unwrap();\n            call.reply(r.r#q)\n        }\n";
     s += "    }\n";
-    s += "    fn errjson(e: &Error) -> Value {\n        match e.kind() {\n            ErrorKind::Err(Some(a)) => json!({\"kind\": \"Err\", \"args\": serde_json::to_value(a).unwrap()}),\n            ErrorKind::Err(None) => json!({\"kind\": \"Err\", \"args\": null}),\n            k => json!({\"kind\": format!(\"{}\", k), \"source\": format!(\"{:?}\", e.source_varlink_kind())}),\n        }\n    }\n";
+    s += &format!("    fn errjson(e: &Error) -> Value {{\n        match e.kind() {{\n            ErrorKind::{en}(Some(a)) => json!({{\"kind\": \"Err\", \"args\": serde_json::to_value(a).unwrap()}}),\n            ErrorKind::{en}(None) => json!({{\"kind\": \"Err\", \"args\": null}}),\n            k => json!({{\"kind\": format!(\"{{}}\", k), \"source\": format!(\"{{:?}}\", e.source_varlink_kind())}}),\n        }}\n    }}\n", en = en);
     s += "    fn call_m(c: &mut VarlinkClient, v: Value, mode: &str) -> Value {\n";
     s += "        let a: M_Args = match serde_json::from_value(v) { Ok(a) => a, Err(e) => return json!({\"badinput\": e.to_string()}) };\n";
     s += &format!("        let mut mc = c.m(a.{a}, a.r#k);\n        rt::drive(mode, &mut mc, &errjson)\n    }}\n", a = ident(fa));
@@ -329,8 +352,11 @@ pub fn emit_glue(idx: usize, idl: &Idl, cases_json: &str) -> String {
     s += "        let a: N_Args = match serde_json::from_value(v) { Ok(a) => a, Err(e) => return json!({\"badinput\": e.to_string()}) };\n";
     s += "        let mut mc = c.n(a.r#w);\n        rt::drive(mode, &mut mc, &errjson)\n    }\n";
     s += "    fn call_p(c: &mut VarlinkClient, _v: Value, mode: &str) -> Value {\n        let mut mc = c.p();\n        rt::drive(mode, &mut mc, &errjson)\n    }\n";
+    s += "    fn call_q(c: &mut VarlinkClient, v: Value, mode: &str) -> Value {\n";
+    s += "        let a: Q_Args = match serde_json::from_value(v) { Ok(a) => a, Err(e) => return json!({\"badinput\": e.to_string()}) };\n";
+    s += "        let mut mc = c.q(a.r#q, a.r#r);\n        rt::drive(mode, &mut mc, &errjson)\n    }\n";
     s += &format!("    pub fn run() {{\n        let cases: Vec<Value> = serde_json::from_str(r####\"{}\"####).unwrap();\n", cases_json);
-    s += &format!("        rt::run_idl({}, Box::new(api::new(Box::new(Srv))), &mut |conn| {{\n            let mut c = VarlinkClient::new(conn);\n            Box::new(move |f: &str, v: Value, mode: &str| match f {{ \"M\" => call_m(&mut c, v, mode), \"N\" => call_n(&mut c, v, mode), _ => call_p(&mut c, v, mode) }})\n        }}, &cases);\n    }}\n}}\n", idx);
+    s += &format!("        rt::run_idl({}, Box::new(api::new(Box::new(Srv))), &mut |conn| {{\n            let mut c = VarlinkClient::new(conn);\n            Box::new(move |f: &str, v: Value, mode: &str| match f {{ \"M\" => call_m(&mut c, v, mode), \"N\" => call_n(&mut c, v, mode), \"Q\" => call_q(&mut c, v, mode), _ => call_p(&mut c, v, mode) }})\n        }}, &cases);\n    }}\n}}\n", idx);
     s
 }
 
